@@ -89,7 +89,7 @@ def label_specs():
           ("elif isinstance(_norm_key, (OctKey, RSAKey, ECKey, OKPKey)):", "gk.iskey"), ("rv_key = _norm_key", "gk.rvkey"),
           ('raise ValueError("Invalid key")', "gk.raise"), ("return rv_key", "gk.ret")], False),
         # only the first line of get_alg is a step (reads of class tables / the singleton)
-        ("get_alg", JWSRegistry.get_alg, [("if name not in self.algorithms:", "jws.getalg")], True),
+        ("get_alg", JWSRegistry.get_alg, [("<first>", "jws.getalg")], True),
     ]
 
 
@@ -109,11 +109,13 @@ class Stops:
             lines, start = inspect.getsourcelines(f)
             self.codes.add(code)
             used = {}
+            first = True
             for ln in sorted({ln for _, _, ln in code.co_lines() if ln is not None and ln != code.co_firstlineno}):
                 txt = lines[ln - start].strip()
                 if "  #" in txt:
                     txt = txt.split("  #")[0].strip()
-                cands = [lab for (t, lab) in spec if txt == t or (t.endswith(",") and txt.startswith(t))]
+                cands = [lab for (t, lab) in spec if txt == t or (t.endswith(",") and txt.startswith(t)) or (t == "<first>" and first)]
+                first = False
                 if cands:
                     n = used.get(txt, 0)
                     used[txt] = n + 1
@@ -327,11 +329,18 @@ def c_allowed(a):
     return "None" if a is None else "(Some %s)" % c_list([c_cstr(x) for x in a])
 
 
+def coq_of(op, r):
+    if not op.crypto:
+        return op.coq
+    return op.coq + (" (Some BadSignatureError)" if r == ("err", "EJose BadSignatureError") else " None")
+
+
 class Op:
     """one API call: `coq` = the model's call term, `thunk(env)` runs it on env (fresh objects)"""
 
     def __init__(self, name, coq, fn, modelled=True, kidfree=False, rand=False, kidsens=False):
         self.name, self.coq, self.fn, self.modelled, self.kidfree = name, coq, fn, modelled, kidfree
+        self.crypto = False       # verify: the primitive's verdict is passed to the model as an oracle
         self.rand = rand          # the outcome depends on random.choice: compare with the set of isolated outcomes
         self.kidsens = kidsens    # looks keys up by kid: on a set of kid-less keys the outcome legitimately follows the lazy kid
 
@@ -389,7 +398,7 @@ def mk_ops(tokens):
             tok = jws.serialize_compact(hdr, payload, obj(env, ref), algorithms=allowed)
             env.tokens.append((tok, alg, payload, hdr.get("kid")))
             return hdr.get("kid")
-        return Op("sign(%s,%s,%r)" % (ref, alg, kidv), "CJws true %s %s %s %s" % (kr(ref), c_ostr(kidv), c_cstr(alg), c_allowed(allowed)), fn,
+        return Op("sign(%s,%s,%r)" % (ref, alg, kidv), "CJws true %s %s %s %s None" % (kr(ref), c_ostr(kidv), c_cstr(alg), c_allowed(allowed)), fn,
                   rand=(ref[0] == "s" and not kidv), kidsens=(ref[0] == "s" and bool(kidv)))
 
     def verify(ref, tokname, allowed=None):
@@ -400,8 +409,10 @@ def mk_ops(tokens):
             if o.payload != payload:
                 raise RuntimeError("verified payload differs")
             return o.headers().get("kid")
-        return Op("verify(%s,%s)" % (ref, tokname), "CJws false %s %s %s %s" % (kr(ref), c_ostr(kidv), c_cstr(alg), c_allowed(allowed)), fn,
-                  kidsens=(ref[0] == "s"))
+        o = Op("verify(%s,%s)" % (ref, tokname), "CJws false %s %s %s %s" % (kr(ref), c_ostr(kidv), c_cstr(alg), c_allowed(allowed)), fn,
+               kidsens=(ref[0] == "s"))
+        o.crypto = True
+        return o
 
     def raw(name, fn):
         return Op(name, None, fn, modelled=False)
@@ -779,7 +790,7 @@ class Runner:
         setup = c_list(["CNewSet %s" % c_list(["%d%%nat" % i for i in m]) for m, lazy in world["sets"] if not lazy])
         term = "CSched %s im_%s pre_%s sets_%s %s %s %s %s %s %s %s %s" % (
             c_bool(variant == "fixed"), wid, wid, wid, c_list(["%d%%nat" % p for p in picks]), setup,
-            c_list([op.coq for op in ops]), c_cstr("".join(str(t) for t, _ in trace)),
+            c_list([coq_of(op, r) for op, r in zip(ops, res)]), c_cstr("".join(str(t) for t, _ in trace)),
             c_cstr(" ".join((lab if '"' not in lab and " " not in lab else "?") for _, lab in trace)),
             c_list([c_result(r) for r in res]),
             c_list(["(%s, %s, %s)" % tuple(c_bool(x) for x in key_final(k)) for k in env.keys]), c_N(len(picks)))
@@ -919,7 +930,9 @@ def sequential_histories(runner, ctx, variant):
             elif c in (7, 8):
                 ref = S(0) if ns and ctx.rng.random() < 0.6 else K(k)
                 a = alg if ref[0] == "k" else ctx.rng.choice(["HS256", "ES256"])
-                ops.append(O["sign"](ref, a, allowed=ctx.rng.choice([None, [a], ["HS512"]]),
+                if a == "HS256":
+                    a = ctx.rng.choice(["HS256", "HS256", "HS384", "HS512"])      # not recommended unless allowed by the call
+                ops.append(O["sign"](ref, a, allowed=ctx.rng.choice([None, [a], [a], ["HS512"]]),
                                      kidv=ctx.rng.choice([None, None, "k2", ""]) if ref[0] == "s" else None))
             elif c in (9, 10):
                 tn = ctx.rng.choice(sorted(runner.tokens))
@@ -947,6 +960,20 @@ def sequential_histories(runner, ctx, variant):
                     ctx.violation({"kind": "shared-object-written", "object": d[0][0].split(":")[0]},
                                   "the call %s changed shared state %r (history %r in world %s)" % (op.name, d, [o.name for o in ops[:idx + 1]], wname),
                                   {"kind": "history", "world": wname, "ops": [o.name for o in ops[:idx + 1]]})
+                while env.tokens:
+                    tok, talg, tpayload, tkid = env.tokens.pop()
+                    fresh = Env(world)
+                    good = False
+                    for fk in fresh.keys:
+                        try:
+                            good = good or jws.deserialize_compact(tok, fk, algorithms=[talg]).payload == tpayload
+                        except Exception:   # noqa
+                            pass
+                    if not good:
+                        ctx.violation({"kind": "token-invalid-after-history", "op": "sign"},
+                                      "the token produced by %s after the history %r is not accepted by any fresh key (world %s)" % (
+                                          op.name, [o.name for o in ops[:idx]], wname),
+                                      {"kind": "history", "world": wname, "ops": [o.name for o in ops[:idx + 1]]})
                 iso, _ = runner.isolated(wname, op)
                 if not runner.same(wname, op, r, iso):
                     ctx.violation({"kind": "outcome-differs-after-history", "op": op.name.split("(")[0]},
@@ -960,7 +987,7 @@ def sequential_histories(runner, ctx, variant):
         setup_res = ["(Ok %s)" % c_pv([env.keys[i]._dict_value.get("kid") for i in m]) for m, lazy in world["sets"] if not lazy]
         runner.cases.append("CSeq %s im_%s pre_%s sets_%s %s %s %s %s %s" % (
             c_bool(variant == "fixed"), wid, wid, wid, c_list(["%d%%nat" % p for p in shim.picks]),
-            c_list(setup + [op.coq for op in ops]), c_list(setup_res + [c_result(r) for r in results]),
+            c_list(setup + [coq_of(op, r) for op, r in zip(ops, results)]), c_list(setup_res + [c_result(r) for r in results]),
             c_list(["(%s, %s, %s)" % tuple(c_bool(x) for x in key_final(k)) for k in env.keys]), c_N(len(shim.picks))))
         runner.meta.append({"world": wname, "ops": [op.name for op in ops], "history": True})
     final = take_snapshot(objs)
@@ -1057,9 +1084,9 @@ def run(ctx):
     ctx.coverage["input_distribution"] = {"schedules_executed": runner.nsched, "schedules_distinct_per_pair": per_pair,
                                           "history_calls": dist, "scheduler_wall_s": round(t_sched, 1), "variant": variant}
 
-    ev = lib.CoqEval(["From Model Require Import Base PyVal TableTypes C20Model C20Cases."], "c20case", "c20_check", "c20_show",
+    ev = lib.CoqEval(["From Model Require Import Base PyVal TableTypes C20Model C20Cases."], "c20case", "c20_check", None,
                      shard=60, max_chars=200000, preamble=runner.preamble())
-    rs = ev.run(runner.cases)
+    rs = ev.run(runner.cases, jobs=8)
     ctx.coverage["traces_validated_against_impl"] = rs["evaluated"]
     ctx.coverage["disagreements_checked"] = len(rs["failing"])
     direct = len(ctx.violations)
